@@ -24,7 +24,14 @@ TREES = {"quick": 48, "thorough": 800}
 VALUES = {"quick": 6, "thorough": 12}
 
 
+
 def shards(tier, seed):
+    from vf import engine
+
+    return engine.with_interpreter_options(_plain_shards(tier, seed))
+
+
+def _plain_shards(tier, seed):
     return campaign.tree_shards(TREES[tier], 3 if tier == "quick" else 16)
 
 
@@ -65,11 +72,20 @@ def probe_instance(rec, t, ti, source):
                 before = getattr(inst, n)
             except Exception:
                 pass
-            for action in ("setattr", "delattr"):
+            for action in ("setattr", "setattr-same-value", "setattr-equal-value", "delattr"):
                 rec.count("setattr-attempts")
                 try:
                     if action == "setattr":
                         setattr(inst, n, 12345)
+                    elif action == "setattr-same-value":
+                        # writing back what the getter returned is an assignment all the same
+                        setattr(inst, n, before)
+                    elif action == "setattr-equal-value":
+                        # ... and so is an equal value of another type (True for 1, a plain int for an enum member, a
+                        # list for a tuple)
+                        eq = (bool(before) if type(before) is int and before in (0, 1) else int(before) if isinstance(before, int) and type(before) is not int
+                              else list(before) if isinstance(before, tuple) else str(before) if isinstance(before, str) else before)
+                        setattr(inst, n, eq)
                     else:
                         delattr(inst, n)
                     ok = False
